@@ -17,8 +17,11 @@ def manager_binding(c, thorough):
     receives with the two documented consumers; after every operation its view must be the model's."""
     import C20
     from riblib import Consumer, ident
-    cfgs = [Cfg("m1", ["p1", "p2"], ["a1", "a2", "b1", "c1"], {"A": [0, 1], "B": [0], "C": [0]}, ["c1", "c2", "c3"], ["n1", "n2"],
+    cfgs = [Cfg("m1", ["p1", "p2"], ["a1", "a2", "b1", "c1"], {"A": [0, 1], "B": [0], "C": [0]}, ["c1", "c2", "c3", "cN"], ["n1", "n2"],
                 filt=(False, True), ops=C20.OPS),
+            # LLGR marking of a peer some of whose routes carry NO_LLGR (two table calls whose changes are fanned out in order)
+            Cfg("m3", ["p1", "p2", "p3"], ["a1", "a2", "b1"], {"A": [0, 1], "B": [0]}, ["c1", "cN", "cL"], ["n1"],
+                filt=(False,), ops=["insert", "remove", "markllgr", "dropllgr"]),
             Cfg("m2", ["p1", "p2", "p3"], ["a1", "b1", "d1"], {"A": [0], "B": [0], "D": [0]}, ["c1", "c4"], ["n1", "n2"],
                 filt=(False, True), ops=C20.OPS)]
     num, depth = (1200, 40) if thorough else (250, 30)
